@@ -33,7 +33,7 @@ def main():
     dst = os.path.join(HERE, "seeded", a.name)
     os.makedirs(dst, exist_ok=True)
     for f in ("patch.diff", "demo.py", "notes.md", "pyst_shim.py"):
-        if os.path.exists(os.path.join(a.src, f)):
+        if os.path.exists(os.path.join(a.src, f)) and os.path.abspath(a.src) != os.path.abspath(dst):
             shutil.copy(os.path.join(a.src, f), os.path.join(dst, f))
     scratch = f"/tmp/seedchk_{a.name}_{os.getpid()}"
     shutil.rmtree(scratch, ignore_errors=True)
